@@ -246,7 +246,7 @@ func runC12(c *Ctx) {
 		for _, r := range returnsUnder(gf, keep) {
 			for _, v := range valuesUnder(gf, r.Results[0], keep) {
 				nTerms++
-				sv := w.evalStr(v, senv{}, 0)
+				sv := w.evalStrUnder(gf, v, keep)
 				txt := renderParts(sv.parts, func(x ssa.Value) string {
 					for i, p := range gf.Params {
 						if strip(x) == ssa.Value(p) {
